@@ -1067,6 +1067,9 @@ impl TypeSpace {
             ),
         ];
 
+        // The type to use if the bounds don't identify a more specific one.
+        let mut fallback_ty = "i64";
+
         if let Some(format) = format {
             if let Some((_fmt, ty, nz_ty, imin, imax)) = formats
                 .iter()
@@ -1100,6 +1103,9 @@ impl TypeSpace {
                 // are looser than the format do not widen the range.
                 min = Some(min.map_or(*imin, |fmin| fmin.max(*imin)));
                 max = Some(max.map_or(*imax, |fmax| fmax.min(*imax)));
+
+                // Every permitted value lies within the format's range.
+                fallback_ty = ty;
             }
         }
 
@@ -1162,7 +1168,7 @@ impl TypeSpace {
             // bounds.
             // TODO failing that, we should find the type that most tightly
             // matches these bounds.
-            Ok((TypeEntry::new_integer("i64"), metadata))
+            Ok((TypeEntry::new_integer(fallback_ty), metadata))
         }
     }
 
